@@ -94,7 +94,7 @@ pub fn run_case(line: &str) {
     let mut ended = false;
     for (k, op) in ops.iter().enumerate() {
         // HtmlRewriter's guarded! is replicated here for the bare TransformStream; end(self) consumes the rewriter
-        let res = if ended { "use-after-end".to_string() } else if poisoned { "panic:poisoned".to_string() } else {
+        let res = if ended { "use-after-end".to_string() } else if poisoned { if matches!(op, Op::End) { ended = true; } "panic:poisoned".to_string() } else {
             if matches!(op, Op::End) { ended = true; }
             match catch_unwind(AssertUnwindSafe(|| match op { Op::Write(d) => ts.write(d), Op::End => ts.end() })) {
                 Ok(Ok(())) => "ok".to_string(),
